@@ -53,6 +53,13 @@ MsgCovered(d, self, m) ==
        /\ (m.type = "RequestVoteResp" /\ ~m.reject /\ d.term = m.term) => d.vote = m.to
        /\ (m.type = "ReplicateResp" /\ ~m.reject) => LastIdx(d) >= m.logindex
 
+\* "Whatever a replica has told the outside world survives a crash": a Replicate message also tells the
+\* receiver a commit index, and the receiver applies up to it.  With two or more voting members the
+\* acknowledgement that completes a quorum is handled in a later step, after the leader's own save; a
+\* leader that is the only voting member is the quorum on its own (raft.appendEntries commits at once),
+\* so the commit index it tells a non-voting member or a witness must be covered by its own durable log.
+CommitCovered(d, m) == (m.type = "Replicate") => m.commit <= LastIdx(d)
+
 \* a replica hands entry i to the user state machine (and so may report a proposal Completed)
 \* only when it has made the entry durable itself: engine.go applies the committed entries of an
 \* update that still has entries to save after SaveRaftState (FastApply is only used when the
